@@ -815,6 +815,13 @@ impl Property for C14 {
             vec![w(N::from(0u32)), GOp::Elligator { dst: 0, f: 0 }, GOp::Compress { dst: 1, e: 0 }],
             vec![w(N::from(1u32)), GOp::Elligator { dst: 0, f: 0 }, GOp::Compress { dst: 1, e: 0 }],
             vec![w(N::from(3u32)), GOp::Elligator { dst: 0, f: 0 }, GOp::Compress { dst: 1, e: 0 }],
+            // the identity decoded from 0 (isqrt(1): either root is a valid hint, so the prover chooses the
+            // representative) under the gadgets that must not depend on the representative
+            vec![w(N::from(0u32)), GOp::Decompress { dst: 0, f: 0 }, GOp::IsZero { a: 0 }],
+            vec![w(N::from(0u32)), GOp::Decompress { dst: 0, f: 0 }, GOp::AllocElem { dst: 1, src: Identity, mode: Mode::Constant, via: Via::Element }, GOp::IsEq { a: 0, b: 1 }, GOp::EnforceNotEqual { a: 0, b: 1 }],
+            vec![w(N::from(0u32)), GOp::Decompress { dst: 0, f: 0 }, GOp::AllocElem { dst: 1, src: Generator, mode: Mode::Witness, via: Via::Element }, GOp::Bin { dst: 2, form: rl::BinForm::AddVV, a: 0, b: 1 }, GOp::EnforceNotEqual { a: 2, b: 1 }],
+            vec![we(Identity), GOp::IsZero { a: 0 }, GOp::Compress { dst: 0, e: 0 }],
+            vec![we(Torsion(Box::new(Identity))), GOp::IsZero { a: 0 }, GOp::AllocElem { dst: 1, src: Identity, mode: Mode::Witness, via: Via::Element }, GOp::EnforceNotEqual { a: 0, b: 1 }],
             vec![we(Generator)],
             vec![we(Identity)],
             vec![GOp::AllocElem { dst: 0, src: Generator, mode: Mode::Input, via: Via::Element }, GOp::Negate { dst: 1, a: 0 }],
